@@ -88,6 +88,9 @@ func c07Command(tag string) [][]byte {
 		{b("zadd"), b("t:z"), b("2"), val},
 		{b("zincrby"), b("t:z"), b("1"), b("m")},
 		{b("zrem"), b("t:z"), b("m")},
+		{b("del"), b("t:j"), b("t:k")}, // the per-partition form of a multi-key DEL
+		{b("set"), b("t:j"), val},
+		{b("hmset"), b("t:h"), b("f"), val},
 	}
 	return tmpl[vsym.Choose(tag, len(tmpl))]
 }
